@@ -8,8 +8,8 @@ cd "$(dirname "$0")/.."
 export GOFLAGS=-mod=mod GOPROXY=off
 pid=$1; src=$2; name=$3; pkg=$4; shift 4
 wt=intake-$name
-d=$(tools/mkworktree.sh "$wt")
 trap 'tools/rmworktree.sh "$wt"' EXIT
+d=$(tools/mkworktree.sh "$wt")
 cp "$src/zz_mut_demo_test.go" "$d/$pkg/zz_mut_demo_test.go"
 log=$(mktemp)
 echo "== demo without patch (must pass)"; (cd "$d" && go test -count=1 -run 'Mut|Demo|ZZ' "./$pkg/" >"$log" 2>&1) || { tail -20 "$log"; echo "INTAKE-FAIL: demo fails without patch"; exit 1; }
